@@ -29,7 +29,7 @@ func (t *ReadBuffers) Receive(bs []byte) ([]byte, bool, error) {
 		t.ReadBuffer[seqNum] = &ReadBuffer{
 			SegCount: 0,
 			MsgSize:  0,
-			Msgs:     make([][]byte, maxSegIdx+1),
+			Msgs:     make([][]byte, int(maxSegIdx)+1), // not in uint16: 65535+1 wraps to 0 slots for the largest message the sender accepts
 		}
 		buf = t.ReadBuffer[seqNum]
 	}
